@@ -104,7 +104,14 @@ type GRPCClient struct {
 // ClientProtocol impl.
 func (c *GRPCClient) Close() error {
 	c.broker.Close()
-	c.controller.Shutdown(c.doneCtx, &plugin.Empty{})
+
+	// Bound the shutdown request: a plugin that does not answer (a stopped
+	// or wedged process) must not block Close, and with it Client.Kill,
+	// for ever. Kill force-kills the process when it does not exit.
+	ctx, cancel := context.WithTimeout(c.doneCtx, 2*time.Second)
+	defer cancel()
+	c.controller.Shutdown(ctx, &plugin.Empty{})
+
 	return c.Conn.Close()
 }
 
